@@ -116,14 +116,19 @@ DecidePublic(r, vs, ns) ==
     CASE r.method = "POST" /\ r.shape = "session" ->
             Resp("200", "create", FALSE)              \* public by design: new session, new secret
       [] r.method = "POST" /\ r.shape = "sid/message" ->
-            IF sc = "ok" THEN Resp("200", "post", FALSE) ELSE NotFound
+            \* (the rig's node is the leader: not-yet-seen is answered 500 there since the F21 repair, proxied elsewhere)
+            IF sc = "ok" THEN Resp("200", "post", FALSE)
+            ELSE IF sc = "notyetseen" THEN Resp("500", "none", FALSE)
+            ELSE NotFound
       [] r.method = "GET" /\ r.shape = "sid/messages" ->
             IF sc = "ok" THEN Resp("200", "none", TRUE)
             ELSE IF sc = "notyetseen" THEN Resp("500", "none", FALSE)
             ELSE NotFound
       [] r.method = "DELETE" /\ r.shape \in {"sid", "session"} ->
             \* DELETE /robustirc/v1/session parses "session" as an id and fails
-            IF r.shape = "sid" /\ sc = "ok" THEN Resp("200", "delete", FALSE) ELSE NotFound
+            IF r.shape = "sid" /\ sc = "ok" THEN Resp("200", "delete", FALSE)
+            ELSE IF r.shape = "sid" /\ sc = "notyetseen" THEN Resp("500", "none", FALSE)
+            ELSE NotFound
       [] OTHER -> NotFound
 
 (* DispatchPrivateWithoutAuth with the harmless bodies the replay sends     *)
